@@ -617,14 +617,37 @@ package participle
 //@   ensures foralls(s, has(syms, s) && p.caseInsensitive[s] ==> p.caseInsensitiveTokens[syms[s]])
 //@ func validate
 //@   trusted
-//@ func newGeneratorContext
-//@   trusted
+//@ func newGeneratorContext [C19]
+//@   requires lex != nil
 //@   fresh result
-//@   ensures result != nil && result.typeNodes != nil && fresh(result.typeNodes)
-//@ func (*generatorContext).addCustomDefs
-//@   trusted
-//@ func (*generatorContext).addUnionDefs
-//@   trusted
+//@   ensures result != nil && result.typeNodes != nil && fresh(result.typeNodes) && result.Definition == lex
+//@   ensures forallt(k, reflect.Type, !has(result.typeNodes, k))
+//@ func (*generatorContext).addCustomDefs [C19]
+//@   requires g != nil && g.typeNodes != nil && tnOK(g)
+//@   modifies mapof(g.typeNodes)
+//@   ensures tnOK(g)
+//@   loop 1 invariant -1 <= rangeindex && rangeindex < len(defs) && tnOK(g)
+//@   loop 1 decreases len(defs) - rangeindex
+// The union nodes are entered in the table first (so that members may refer to unions, themselves included) and
+// filled afterwards. That no member type is nil is what the Union option checks (assumed here).
+//@ func (*generatorContext).addUnionDefs [C19]
+//@   requires g != nil && g.typeNodes != nil && g.Definition != nil && tnOK(g)
+//@   requires @assumed forall(k, 0, len(defs), forall(j, 0, len(defs[k].members), defs[k].members[j] != nil))
+//@   modifies mapof(g.typeNodes), family(strct), family(structLexer), family(lexer.PeekingLexer), family(lexer.Token)
+//@   ensures tnOK(g)
+//@   loop 1 invariant -1 <= rangeindex && rangeindex < len(defs) && tnOK(g) && len(unionNodes) == len(defs) && fresh(unionNodes)
+//@   loop 1 invariant forall(k, 0, rangeindex+1, unionNodes[k] != nil && fresh(unionNodes[k]))
+//@   loop 1 decreases len(defs) - rangeindex
+//@   loop 2 invariant -1 <= rangeindex && rangeindex < len(defs) && tnOK(g) && len(unionNodes) == len(defs) && fresh(unionNodes)
+//@   loop 2 invariant forall(k, 0, len(defs), unionNodes[k] != nil && fresh(unionNodes[k]))
+//@   loop 2 decreases len(defs) - rangeindex
+//@   loop 3 invariant 0 <= rangeindex_up + 1 && rangeindex_up + 1 < len(defs)
+//@   loop 3 invariant -1 <= rangeindex && rangeindex < len(defs[rangeindex_up+1].members)
+//@   loop 3 invariant tnOK(g)
+//@   loop 3 invariant len(unionNodes) == len(defs) && fresh(unionNodes)
+//@   loop 3 invariant unionNode != nil && fresh(unionNode)
+//@   loop 3 invariant forall(k, 0, len(defs), unionNodes[k] != nil && fresh(unionNodes[k]))
+//@   loop 3 decreases len(defs[rangeindex_up+1].members) - rangeindex
 
 // Build: the lookahead of the built parser is whatever the options left (1 when no option touched it):
 // Build itself neither clamps nor defaults it after the options ran. The lexer of the built parser is
@@ -744,8 +767,7 @@ package participle
 //@   trusted
 //@   fresh result
 //@   ensures result != nil && result.scanner != nil
-//@ func fieldLexerTag
-//@   trusted
+//@ func fieldLexerTag [C19]
 //@   pure
 
 // Peek looks at the next token of the concatenated field tags without moving: it may run fresh lexers over the
@@ -778,7 +800,13 @@ package participle
 //@   loop 1 invariant t != nil && start != nil && 0 <= i && i <= 65
 //@   loop 1 decreases 66 - i
 
+// tnOK: the table of nodes by type holds only non-nil struct, union and custom nodes (what parseType may find and
+// hand back for a type it has met before). Empty after newGeneratorContext; kept by everything that fills it.
+//@ pred tnOK(g *generatorContext) = forallt(k, reflect.Type, has(g.typeNodes, k) ==> g.typeNodes[k] != nil && (typeis(g.typeNodes[k], *strct) || typeis(g.typeNodes[k], *union) || typeis(g.typeNodes[k], *custom)) && (typeis(g.typeNodes[k], *strct) ==> g.typeNodes[k].(*strct) != nil))
 //@ func (*generatorContext).parseNegation [C19]
+//@   requires tnOK(g)
+//@   ensures tnOK(g)
+//@   requires g.Definition != nil
 //@   requires g != nil && g.typeNodes != nil
 //@   modifies mapof(g.typeNodes), family(strct), family(structLexer), family(lexer.PeekingLexer), family(lexer.Token)
 //@   requires slexer != nil
@@ -789,6 +817,8 @@ package participle
 // mode, for [ ] and { }, stays what it was): ! + * ? select the four modes, anything else leaves the
 // operand as it is (C01: the node graph means what the tag says).
 //@ func (*generatorContext).parseModifier [C19 C01]
+//@   requires tnOK(g)
+//@   ensures tnOK(g)
 //@   requires g != nil && g.typeNodes != nil
 //@   modifies mapof(g.typeNodes), family(strct), family(structLexer), family(lexer.PeekingLexer), family(lexer.Token)
 //@   requires slexer != nil && (expr != nil ==> wfc(expr))
@@ -804,12 +834,18 @@ package participle
 //@   use wfcGroup(result0.(*group)) at exit
 
 //@ func (*generatorContext).parseTermNoModifiers [C19]
+//@   requires tnOK(g)
+//@   ensures tnOK(g)
+//@   requires g.Definition != nil
 //@   requires g != nil && g.typeNodes != nil
 //@   modifies mapof(g.typeNodes), family(strct), family(structLexer), family(lexer.PeekingLexer), family(lexer.Token)
 //@   requires slexer != nil
 //@   ensures result1 == nil && result0 != nil ==> wfc(result0)
 
 //@ func (*generatorContext).parseTerm [C19]
+//@   requires tnOK(g)
+//@   ensures tnOK(g)
+//@   requires g.Definition != nil
 //@   requires g != nil && g.typeNodes != nil
 //@   modifies mapof(g.typeNodes), family(strct), family(structLexer), family(lexer.PeekingLexer), family(lexer.Token)
 //@   requires slexer != nil
@@ -831,6 +867,9 @@ package participle
 //@   requires lseg(h, c) && c != nil && c.node != nil && wfc(c.node) && c.next == nil
 //@   ensures wfc(iface(h))
 //@ func (*generatorContext).parseSequence [C19]
+//@   requires tnOK(g)
+//@   ensures tnOK(g)
+//@   requires g.Definition != nil
 //@   requires g != nil && g.typeNodes != nil
 //@   modifies mapof(g.typeNodes), family(strct), family(structLexer), family(lexer.PeekingLexer), family(lexer.Token)
 //@   requires slexer != nil
@@ -839,21 +878,28 @@ package participle
 //@   use lsegSnoc(head, prev(cursor)) at loop 1 end
 //@   use lsegClose(head, cursor) at loop 1
 //@   loop 1 invariant head != nil && cursor != nil && fresh(head) && fresh(cursor) && cursor.next == nil && lseg(head, cursor)
+//@   loop 1 invariant tnOK(g)
 //@   loop 1 invariant (cursor.node == nil ==> cursor == head) && (cursor.node != nil ==> wfc(cursor.node))
 //@   loop 1 invariant head.node != nil ==> wfc(head.node)
 //@   loop 1 nonterminating-ok
 
 //@ func (*generatorContext).parseDisjunction [C19]
+//@   requires tnOK(g)
+//@   ensures tnOK(g)
+//@   requires g.Definition != nil
 //@   requires g != nil && g.typeNodes != nil
 //@   modifies mapof(g.typeNodes), family(strct), family(structLexer), family(lexer.PeekingLexer), family(lexer.Token)
 //@   requires slexer != nil
 //@   ensures result1 == nil ==> result0 != nil && wfc(result0)
-//@   requires @assumed g.Definition != nil
 //@   use wfcDisjunction(result0.(*disjunction)) at exit
 //@   loop 1 invariant out != nil && fresh(out) && forall(k, 0, len(out.nodes), out.nodes[k] != nil && wfc(out.nodes[k]))
+//@   loop 1 invariant tnOK(g)
 //@   loop 1 nonterminating-ok
 
 //@ func (*generatorContext).parseCapture [C19]
+//@   requires tnOK(g)
+//@   ensures tnOK(g)
+//@   requires g.Definition != nil
 //@   requires g != nil && g.typeNodes != nil
 //@   modifies mapof(g.typeNodes), family(strct), family(structLexer), family(lexer.PeekingLexer), family(lexer.Token)
 //@   requires slexer != nil
@@ -861,22 +907,29 @@ package participle
 //@   use wfcCapture(result0.(*capture)) at exit
 
 //@ func (*generatorContext).parseReference [C19]
+//@   requires tnOK(g)
+//@   ensures tnOK(g)
+//@   requires g.Definition != nil
 //@   requires g != nil && g.typeNodes != nil
 //@   modifies mapof(g.typeNodes), family(strct), family(structLexer), family(lexer.PeekingLexer), family(lexer.Token)
 //@   requires slexer != nil
-//@   requires @assumed g.Definition != nil
 //@   ensures result1 == nil ==> result0 != nil && wfc(result0)
 //@   use wfcLeaf(result0) at exit
 
 //@ func (*generatorContext).parseLiteral [C19]
+//@   requires tnOK(g)
+//@   ensures tnOK(g)
+//@   requires g.Definition != nil
 //@   requires g != nil && g.typeNodes != nil
 //@   modifies mapof(g.typeNodes), family(strct), family(structLexer), family(lexer.PeekingLexer), family(lexer.Token)
 //@   requires lex != nil
-//@   requires @assumed g.Definition != nil
 //@   ensures result1 == nil ==> result0 != nil && wfc(result0)
 //@   use wfcLeaf(result0) at exit
 
 //@ func (*generatorContext).parseOptional [C19]
+//@   requires tnOK(g)
+//@   ensures tnOK(g)
+//@   requires g.Definition != nil
 //@   requires g != nil && g.typeNodes != nil
 //@   modifies mapof(g.typeNodes), family(strct), family(structLexer), family(lexer.PeekingLexer), family(lexer.Token)
 //@   requires slexer != nil
@@ -884,6 +937,9 @@ package participle
 //@   use wfcGroup(result0.(*group)) at exit
 
 //@ func (*generatorContext).parseRepetition [C19]
+//@   requires tnOK(g)
+//@   ensures tnOK(g)
+//@   requires g.Definition != nil
 //@   requires g != nil && g.typeNodes != nil
 //@   modifies mapof(g.typeNodes), family(strct), family(structLexer), family(lexer.PeekingLexer), family(lexer.Token)
 //@   requires slexer != nil
@@ -891,6 +947,9 @@ package participle
 //@   use wfcGroup(result0.(*group)) at exit
 
 //@ func (*generatorContext).parseGroup [C19]
+//@   requires tnOK(g)
+//@   ensures tnOK(g)
+//@   requires g.Definition != nil
 //@   requires g != nil && g.typeNodes != nil
 //@   modifies mapof(g.typeNodes), family(strct), family(structLexer), family(lexer.PeekingLexer), family(lexer.Token)
 //@   requires slexer != nil
@@ -898,6 +957,9 @@ package participle
 //@   use wfcGroup(result0.(*group)) at exit
 
 //@ func (*generatorContext).subparseLookaheadGroup [C19]
+//@   requires tnOK(g)
+//@   ensures tnOK(g)
+//@   requires g.Definition != nil
 //@   requires g != nil && g.typeNodes != nil
 //@   modifies mapof(g.typeNodes), family(strct), family(structLexer), family(lexer.PeekingLexer), family(lexer.Token)
 //@   requires slexer != nil
@@ -905,6 +967,9 @@ package participle
 //@   use wfcLookahead(result0.(*lookaheadGroup)) at exit
 
 //@ func (*generatorContext).subparseGroup [C19]
+//@   requires tnOK(g)
+//@   ensures tnOK(g)
+//@   requires g.Definition != nil
 //@   requires g != nil && g.typeNodes != nil
 //@   modifies mapof(g.typeNodes), family(strct), family(structLexer), family(lexer.PeekingLexer), family(lexer.Token)
 //@   requires slexer != nil
@@ -918,8 +983,10 @@ package participle
 //@ global captureType != nil && uf("rtype_kind", "Int", captureType) == reflect.Interface
 //@ global textUnmarshalerType != nil && uf("rtype_kind", "Int", textUnmarshalerType) == reflect.Interface
 //@ func (*generatorContext).parseType [C19]
+//@   requires tnOK(g)
+//@   ensures tnOK(g)
+//@   requires g.Definition != nil
 //@   requires g != nil && t != nil && g.typeNodes != nil
-//@   requires @assumed forallt(k, reflect.Type, has(g.typeNodes, k) ==> g.typeNodes[k] != nil && (typeis(g.typeNodes[k], *strct) || typeis(g.typeNodes[k], *union) || typeis(g.typeNodes[k], *custom)) && (typeis(g.typeNodes[k], *strct) ==> g.typeNodes[k].(*strct) != nil))
 //@   ensures returnedError == nil ==> result0 != nil && wfc(result0)
 //@   modifies mapof(g.typeNodes), family(strct), family(structLexer), family(lexer.PeekingLexer), family(lexer.Token)
 //@   use wfcLeaf(result0) at exit
@@ -928,13 +995,13 @@ package participle
 //@   trusted
 //@   fresh result0
 //@   ensures result1 == nil ==> result0 != nil && len(result0.indexes) >= 0
-//@ func newStrct
-//@   trusted
+//@ global positionType != nil && tokensType != nil
+//@ func newStrct [C19]
+//@   requires typ != nil
 //@   fresh result
 //@   ensures result != nil && result.typ == typ && result.expr == nil
-//@ func decorate
-//@   trusted
-//@   requires err != nil
+//@ func decorate [C19 C06]
+//@   requires err != nil && name != nil
 //@   modifies *err
 //@   ensures (old(*err) == nil) == (*err == nil)
 
